@@ -29,7 +29,7 @@ func genC11(t *rapid.T) any {
 
 var c11Composite = map[string]bool{"join": true, "left-join": true, "parallel-join": true, "hash-join": true, "cte": true, "cte-twice": true, "derived": true, "sel-sub": true,
 	"sel-sub-root": true, "in-sub": true, "exists": true, "not-exists": true, "union": true, "union-all": true, "order-limit": true, "nested-from": true, "star-sub": true,
-	"derived-cte": true, "join-derived-cte": true, "in-sub-cte": true, "sel-sub-cte": true, "exists-cte": true, "cte-union": true, "cte-nested": true, "join-derived": true, "cte-join": true, "in-sub-root": true, "exists-outer": true, "having-agg": true, "group": true, "group-having": true, "whole-agg": true, "distinct": true}
+	"join-on-fn": true, "derived-cte": true, "join-derived-cte": true, "in-sub-cte": true, "sel-sub-cte": true, "exists-cte": true, "cte-union": true, "cte-nested": true, "join-derived": true, "cte-join": true, "in-sub-root": true, "exists-outer": true, "having-agg": true, "group": true, "group-having": true, "whole-agg": true, "distinct": true}
 
 func checkC11(c *C11Case) Result {
 	res := Result{}
